@@ -159,6 +159,7 @@ func (m *memTable) setBatch(entries []*kv.Entry) error {
 	for _, info := range infos {
 		atomic.AddInt64(&m.walSize, int64(info.Length)+8)
 	}
+	utils.VerifYield("crash.memtable.afterWalAppend")
 	if m.index != nil {
 		for _, entry := range entries {
 			m.index.Add(entry)
